@@ -6,8 +6,10 @@ use std::panic::{catch_unwind, AssertUnwindSafe};
 
 mod ops_codec;
 mod ops_gossip;
+mod ops_misc;
 mod ops_parser;
 mod ops_raft;
+mod ops_rel;
 mod ops_wal;
 
 fn dispatch(req: &Value) -> Value {
@@ -25,6 +27,12 @@ fn dispatch(req: &Value) -> Value {
         return v;
     }
     if let Some(v) = ops_parser::handle(op, req) {
+        return v;
+    }
+    if let Some(v) = ops_rel::handle(op, req) {
+        return v;
+    }
+    if let Some(v) = ops_misc::handle(op, req) {
         return v;
     }
     json!({"error": format!("unknown op {op}")})
